@@ -244,6 +244,8 @@ def plan(cases, tier, rng0):
         rng = random.Random(rng0.getrandbits(64))
         if ci % T["stride"]:
             continue
+        if c["nfix"] == 0:
+            continue        # MIR defines no variadic *function* without a named parameter (soundness rule 1)
         restypes = [r["t"] for r in c["res"]] if c["tag"] in ("res", "sim") else reslists[(ci * 7) % len(reslists)]
         kinds = BODIES_VA if c["nfix"] >= 0 else BODIES_FIX
         for b in range(T["bodies"]):
@@ -422,8 +424,8 @@ def fail_text(j, eng, f):
     return "%s body=%s: %s[%s] %s expected %s got %s" % (ENG_NAME[eng], j["body"], f["k"], f["a"], f["t"], hx(f["exp"]), hx(f["got"]))
 
 
-def execute(jobs, engines, ck, workdir, mutate=None):
-    exe = build_harness()
+def execute(jobs, engines, ck, workdir, mutate=None, exe=None):
+    exe = exe or build_harness()
     t0 = time.time()
     res = chunked_run(exe, jobs, engines, workdir)
     t1 = time.time()
@@ -459,18 +461,22 @@ def sig_label(j):
     return "%s %s" % (case_label(dict(j["case"], res=[{"t": t} for t in j["res"]])), j["body"])
 
 
-def report(ck, fails, index, hard, classify=None):
+def report(ck, fails, index, hard, cured):
     for j, eng, key, txt in hard:
-        ck.violation(key, "%s  %s: %s" % (sig_label(j), ENG_NAME[eng], txt), replay_rec(j, eng))
+        k = cured.get((j["jid"], eng), key)
+        ck.violation(k, "%s  %s: %s%s" % (sig_label(j), ENG_NAME[eng], txt, " [cured by the proposed repair]" if k != key else ""), replay_rec(j, eng))
     for (jid, eng), fl in sorted(fails.items()):
         j = index[(jid, eng)]
         keys = {}
         for f in fl:
             keys.setdefault(fail_key(j, eng, f), f)
-        if classify:
-            keys = classify(j, eng, fl, keys)
+        if (jid, eng) in cured:
+            f = fl[0]
+            ck.violation(cured[(jid, eng)], "%s  %s [%d failed checks, all cured by the proposed repair series up to %s]"
+                         % (sig_label(j), fail_text(j, eng, f), len(fl), cured[(jid, eng)]), replay_rec(j, eng))
+            continue
         for key, f in keys.items():
-            ck.violation(key, "%s  %s" % (sig_label(j), f if isinstance(f, str) else fail_text(j, eng, f)), replay_rec(j, eng))
+            ck.violation(key, "%s  %s" % (sig_label(j), fail_text(j, eng, f)), replay_rec(j, eng))
 
 
 def replay_rec(j, eng):
@@ -489,10 +495,89 @@ def job_from_rec(rec):
             "seeds": [bytes.fromhex(x) for x in rec["seeds"]]}
 
 
-# listed deviations of the callee side are recognised by re-validating the same execution against a deviant
-# expectation (see classify_known): only an execution that the deviant rule explains completely is keyed as the finding
-def classify_known(j, eng, fl, keys):
-    return keys
+# ------------------------------------------------------------------ attribution of failures to listed findings
+# A failure is keyed as a listed finding only if the proposed minimal repair of that finding cures it: the failing
+# executions are re-run, with identical inputs, on copies of the tree under test to which the repairs in
+# findings/proposed/ have been applied (a series, each step adding one repair).  The key is the repair that first
+# makes the execution pass.  Everything the repairs do not cure keeps its raw key and alarms.  When a repair does
+# not apply to the tree under test any more, the series stops there (nothing is attributed to it).
+FIX_SERIES = [("callee:ld_stack_unaligned", "C05-ld-stack-align.diff"),
+              ("callee:va_block_arg_sse", "C06-va-block-arg-sse.diff"),
+              ("callee:gen_va_start", "C06-gen-va-start.diff"),
+              ("callee:gvn_va_block_arg", "C06-gvn-va-block-arg.diff")]
+
+
+def patched_harnesses():
+    """[(key, harness exe)] for the prefixes of FIX_SERIES that apply and build; built in parallel subprocesses"""
+    import glob, shutil, hashlib
+    files = [f for f in glob.glob(os.path.join(vlib.REPO, "*.c")) + glob.glob(os.path.join(vlib.REPO, "*.h"))]
+    pdir = os.path.join(vlib.VERIF, "findings", "proposed")
+    patches = [os.path.join(pdir, p) for _, p in FIX_SERIES]
+    th = vlib.tree_hash(files + [p for p in patches if os.path.exists(p)])
+    dirs, prev = [], None
+    for k, (key, pf) in enumerate(FIX_SERIES):
+        path = os.path.join(pdir, pf)
+        if not os.path.exists(path):
+            break
+        d = os.path.join(vlib.OUT, "build", "c06fix-%s-%d" % (th, k + 1))
+        if not os.path.exists(os.path.join(d, ".ok")):
+            shutil.rmtree(d, ignore_errors=True)
+            os.makedirs(d)
+            for f in (files if prev is None else glob.glob(os.path.join(prev, "*.[ch]"))):
+                shutil.copy(f, d)
+            rc, o, e = vlib.sh("patch -p1 -s -f -d %s < %s" % (d, path), timeout=60)
+            if rc != 0:
+                vlib.log("  c06: proposed repair %s does not apply to the tree under test; attribution stops here" % pf)
+                shutil.rmtree(d, ignore_errors=True)
+                break
+            open(os.path.join(d, ".ok"), "w").write("ok")
+        dirs.append((key, d))
+        prev = d
+    procs = []
+    for key, d in dirs:
+        env = dict(os.environ, VERIF_REPO=d)
+        procs.append((key, subprocess.Popen([sys.executable, "-c", "import sys; sys.path.insert(0, %r); import c06; print('EXE=' + c06.build_harness())"
+                                             % os.path.join(vlib.HARNESS, "py")], env=env, stdout=subprocess.PIPE, stderr=subprocess.STDOUT)))
+    out = []
+    for key, p in procs:
+        o, _ = p.communicate()
+        exe = [l[4:] for l in o.decode().splitlines() if l.startswith("EXE=")]
+        if p.returncode != 0 or not exe:
+            vlib.log("  c06: tree with repairs up to %s does not build; attribution stops here" % key)
+            break
+        out.append((key, exe[0]))
+    for old in glob.glob(os.path.join(vlib.OUT, "build", "c06fix-*")):
+        if not os.path.basename(old).startswith("c06fix-%s-" % th) and time.time() - os.path.getmtime(old) > 600:
+            shutil.rmtree(old, ignore_errors=True)
+    return out
+
+
+def attribute(fails, index, hard, engines, workdir):
+    """{(jid, eng): finding key} for failing executions cured by the proposed repairs"""
+    bad = set(fails) | set((j["jid"], eng) for j, eng, _, _ in hard)
+    for j, eng, _, _ in hard:
+        index[(j["jid"], eng)] = j
+    if not bad:
+        return {}
+    cured = {}
+    for key, exe in patched_harnesses():
+        if not bad:
+            break
+        byjid = {}
+        for be in sorted(bad):
+            byjid.setdefault(be[0], index[be])
+        jobs = list(byjid.values())
+        vlib.log("  c06: attribution step %s: %d failing executions of %d functions to re-run" % (key, len(bad), len(jobs)))
+        d = os.path.join(workdir, "fix-" + key.split(":")[1])
+        os.makedirs(d, exist_ok=True)
+        nexec, nst, nev, f2, ix2, hard2 = execute(jobs, engines, None, d, exe=exe)
+        still = set(f2) | set((j["jid"], eng) for j, eng, _, _ in hard2)
+        ran = set(ix2) | still
+        for be in sorted(bad):
+            if be in ran and be not in still:
+                cured[be] = key
+        bad -= set(cured)
+    return cured
 
 
 def run(tier, mutate=None):
@@ -504,7 +589,10 @@ def run(tier, mutate=None):
     rng0 = random.Random(vlib.seed() * 7919 + 3)
     jobs = plan(cases, tier, rng0)
     nexec, nst, nev, fails, index, hard = execute(jobs, T["engines"], ck, workdir, mutate=mutate)
-    report(ck, fails, index, hard, classify_known)
+    cured = attribute(fails, index, hard, T["engines"], workdir) if (fails or hard) and not mutate else {}
+    ck.setc("executions_failing", len(set(fails) | set((j["jid"], e) for j, e, _, _ in hard)))
+    ck.setc("executions_cured_by_proposed_repairs", len(cured))
+    report(ck, fails, index, hard, cured)
     ck.setc("states", stats["states"] + nst)
     ck.setc("transitions", stats["transitions"] + nev)
     ck.setc("placement_graph_states", stats.get("graph_states", 0))
